@@ -696,7 +696,12 @@ def run(rep, tier):
         # at most 12 failing inputs and 6 broken ties are written out (one kind must not crowd out the other)
         nfail[0] += 1
         nkind[kind] = nkind.get(kind, 0) + 1
-        if nkind[kind] <= (12 if kind == "failing-input" else 6):
+        what_key = (kind, (kw.get("sig") or {}).get("what"))
+        nkind[what_key] = nkind.get(what_key, 0) + 1
+        cap = 12 if kind == "failing-input" else 6
+        # ... and at most 4 of one signature while other signatures may still turn up
+        if nkind[what_key] <= (4 if what_key[1] else cap) and nkind.get(("written", kind), 0) < cap:
+            nkind[("written", kind)] = nkind.get(("written", kind), 0) + 1
             rep.fail(kind, what, case=case, **kw)
 
     phase("build")
@@ -932,6 +937,16 @@ def run(rep, tier):
                 elif t["status"] != "FAIL" or not valid:
                     fail("failing-input", f"python -m halmos --dump-smt-directory, run {k + 1}: {sig} fails for y = {t['want']} but ended {t['status']} with models {t['models']}", case,
                          sig={"what": "refinement-lost-cex"})
+                else:
+                    # the text on stdout is what the user replays: as many valid counterexamples as in the
+                    # report, each readable, each assigning the only failing input
+                    pv = [pp for pp in t.get("printed", []) if pp["valid"]]
+                    rep.count("l3_printed", "valid counterexample on stdout" + ("/failing input above the declared width" if t["want"] >> int(sig.split("uint")[1].rstrip(")")) else ""))
+                    badp = [pp for pp in pv if not pp["readable"] or pp["y"] != t["want"]]
+                    if badp or len(pv) != len(valid):
+                        fail("failing-input", f"python -m halmos, run {k + 1}: {sig} fails only for y = {hex(t['want'])}; the report holds {len(valid)} valid counterexample(s) with that value, but stdout shows "
+                             f"{[('unreadable' if not pp['readable'] else None if pp['y'] is None else hex(pp['y'])) for pp in pv]} after `Counterexample:` - replaying the printed input does not fail", case,
+                             sig={"what": "printed-cex-not-reproducible"})
 
     # ---- X-inv: python -m halmos --invariant-depth 1: the violating sequence needs a require() on an
     # argument that never reaches the state (a condition of the earlier transaction's path)
